@@ -80,7 +80,10 @@ def trait_decls(cases):
                 ms = []
                 for q, m in enumerate(p["ms"]):
                     ret = "" if m["r"]["k"] == "unit" else " -> " + rust_ty(m["r"], None)
-                    ms.append("        fn t%d(&self%s)%s;\n" % (q, "".join(", a%d: %s" % (j, rust_ty(a, None)) for j, a in enumerate(m["ps"])), ret))
+                    # one method in the MIDDLE of a trait is disabled for the C backend: the macro compiles a vtable slot for every method
+                    # whatever the backend attributes say, so the slot has to stay in the header (later slots must not shift)
+                    dis = "        #[diplomat::attr(c, disable)]\n" if (q == 1 and len(p["ms"]) >= 3) else ""
+                    ms.append(dis + "        fn t%d(&self%s)%s;\n" % (q, "".join(", a%d: %s" % (j, rust_ty(a, None)) for j, a in enumerate(m["ps"])), ret))
                 out.append("    pub trait %s {\n%s    }\n" % (p["n"], "".join(ms)))
     return "".join(out)
 
